@@ -3,8 +3,10 @@ pub mod c02;
 pub mod c03;
 pub mod c04;
 pub mod c05;
+pub mod c06;
 pub mod c08;
 pub mod c11;
+pub mod c17;
 
 use crate::fw::Ctx;
 pub fn dispatch(ctx: &Ctx) -> i32 {
@@ -14,8 +16,10 @@ pub fn dispatch(ctx: &Ctx) -> i32 {
         "C03" => c03::run(ctx),
         "C04" => c04::run(ctx),
         "C05" => c05::run(ctx),
+        "C06" => c06::run(ctx),
         "C08" => c08::run(ctx),
         "C11" => c11::run(ctx),
+        "C17" => c17::run(ctx),
         other => {
             println!("INCONCLUSIVE property={} no such check", other);
             2
